@@ -11,6 +11,7 @@ for d in sorted(glob.glob('/verif/seeded/C*-*')):
     needs = (m.get('needs_to_manifest') or '').replace('\n', ' ').replace('|', '/')
     det = lv.get('verif_check_exit') == 1
     verdict = 'detected' if det else 'MISSED at first'
+    if det and lv.get('pre_run_widening'): verdict = 'detected, but only because the check was widened on reading the seeder\'s report before it was first run on the change (counts as a miss of the earlier check)'
     sigs = ', '.join('`%s`' % s for s in (lv.get('violation_signatures') or [])[:3])
     if not det and lv.get('after_strengthening'):
         a = lv['after_strengthening']
@@ -25,7 +26,7 @@ out = ["# Independently seeded changes (fresh sub-agents given only the property
        "the change and passes without it (re-built and re-run by the lead), and was then given to the /verif check (`VERIF_REPO=<worktree> ./check <ID> --tier quick`).", "",
        "| seed | change | needs, to manifest | verdict of the check | signatures / how it was caught | suite |", "|---|---|---|---|---|---|"]
 for r in rows: out.append("| %s | %s | %s | %s | %s | %s |" % r)
-n = len(rows); d1 = sum(1 for r in rows if r[3] == 'detected'); d2 = sum(1 for r in rows if r[3].startswith('missed at first;')); op = sum(1 for r in rows if 'open' in r[3])
-out += ["", "Totals: %d seeded changes; %d detected by the check as it stood; %d missed at first and detected after the alphabet was widened (never by special-casing); %d still open." % (n, d1, d2, op)]
+n = len(rows); d1 = sum(1 for r in rows if r[3] == 'detected'); d2 = sum(1 for r in rows if r[3].startswith('missed at first;')); d3 = sum(1 for r in rows if r[3].startswith('detected, but only')); op = sum(1 for r in rows if 'open' in r[3])
+out += ["", "Totals: %d seeded changes; %d detected by the check as it stood; %d missed at first and detected after the alphabet was widened (never by special-casing); %d more caught only by a widening made on reading the seeder's report before the first run (misses of the earlier check); %d still open." % (n, d1, d2, d3, op)]
 open('/verif/seeded/RESULTS.md', 'w').write('\n'.join(out) + '\n')
 print(out[-1])
